@@ -3,7 +3,7 @@ from props import common
 
 FUNCS = ["pce500.display.hd61202:decode_access", "parse_command", "HD61202.write_instruction", "HD61202.write_data",
          "HD61202.read_data", "HD61202.read_instruction_status", "pce500.display.controller_wrapper:HD61202Controller.read",
-         "HD61202Controller.write", "HD61202Controller.get_display_buffer (Merge pass)", "pce500.display.pipeline:LCDPipeline._apply_command/_chip_indices"]
+         "HD61202Controller.write", "HD61202Controller.get_snapshot / pipeline.LCDPipeline.snapshot / _snapshot_from_chips", "HD61202Controller.get_display_buffer (Merge pass)", "pce500.display.pipeline:LCDPipeline._apply_command/_chip_indices"]
 
 
 def run(prop, tier):
